@@ -68,11 +68,9 @@ pub fn queries(r: &mut Rng, out: &mut String, b: &str, nkeys: usize) {
     }
 }
 
-pub fn gen_case(r: &mut Rng, out: &mut String, with_queries: bool) {
-    let nkeys = r.range(1, 6) as usize;
-    let nops = r.range(5, 40);
-    writeln!(out, "new b0").unwrap();
-    for _ in 0..nops {
+/// one random C01 mutator on slot `b0` (no `dump`); shared with the operand builders of other profiles
+pub fn mutator(r: &mut Rng, out: &mut String, nkeys: usize) {
+    {
         match r.below(24) {
             0..=4 => writeln!(out, "insert b0 {}", value(r, nkeys)).unwrap(),
             5..=6 => writeln!(out, "remove b0 {}", value(r, nkeys)).unwrap(),
@@ -145,6 +143,15 @@ pub fn gen_case(r: &mut Rng, out: &mut String, with_queries: bool) {
                 writeln!(out, "from_sorted b0{}", s).unwrap()
             }
         }
+    }
+}
+
+pub fn gen_case(r: &mut Rng, out: &mut String, with_queries: bool) {
+    let nkeys = r.range(1, 6) as usize;
+    let nops = r.range(5, 40);
+    writeln!(out, "new b0").unwrap();
+    for _ in 0..nops {
+        mutator(r, out, nkeys);
         writeln!(out, "dump b0").unwrap();
         if with_queries && r.chance(1, 3) {
             queries(r, out, "b0", nkeys);
